@@ -3,42 +3,11 @@
 package arvados
 
 import (
-	"encoding/hex"
 	"fmt"
-	"io"
 	"os"
-	"sort"
 	"strings"
 	"testing"
 )
-
-var c08Paths = []string{
-	"a", "b", "d", "e", "d/a", "d/b", "d/e", "d/e/a", "e/a", "./a", "d/../a", "d/", "d/.", "a/", "a/b",
-	"", ".", "..", "d/e/..", "/a", "d//b", "d/e/", "x/y", "d/..", "./d/./e", "a b", "d/a:b",
-}
-
-func c08Path(r *vRand, known []string) string {
-	if len(known) > 0 && r.Chance(1, 2) {
-		return known[r.Intn(len(known))]
-	}
-	if r.Chance(3, 4) {
-		return c08Paths[r.Intn(12)]
-	}
-	return c08Paths[r.Intn(len(c08Paths))]
-}
-
-type c08Obs struct {
-	term string
-	desc string
-}
-
-func c08ErrObs(err error) string { return "VErr " + cfsErr(err) }
-
-func c08Bytes(b []byte) string { return `(B "` + hex.EncodeToString(b) + `")` }
-
-func c08Info(fi os.FileInfo) string {
-	return fmt.Sprintf("VInfo %s %d", gBool(fi.IsDir()), fi.Size())
-}
 
 // c08Run generates and executes one history; returns Gallina op list, obs list and a description.
 func c08Run(t *testing.T, r *vRand, mb int, nops int, focus bool) (ops, obs []string, desc []string, tags []string) {
@@ -48,10 +17,7 @@ func c08Run(t *testing.T, r *vRand, mb int, nops int, focus bool) (ops, obs []st
 	if err != nil {
 		t.Fatal(err)
 	}
-	var hs []File
-	var known []string // paths that were created successfully at some point
-	tagset := map[string]bool{}
-	tag := func(s string) { tagset[s] = true }
+	se := &cfsSess{t: t, fs: fs, mb: mb, tagset: map[string]bool{}}
 	add := func(op, ob, d string) {
 		ops = append(ops, op)
 		obs = append(obs, ob)
@@ -71,244 +37,22 @@ func c08Run(t *testing.T, r *vRand, mb int, nops int, focus bool) (ops, obs []st
 				}
 			default:
 				_, ferr = fs.MarshalManifest(".")
-				tag("save")
+				se.tag("save")
 			}
 			if ferr != nil {
 				t.Fatalf("flush/marshal failed: %v", ferr)
 			}
-			tag("flush")
+			se.tag("flush")
 		}
-		k := r.Intn(100)
-		if focus {
-			// stratum "data path": a file with stored segments, several handles; mostly write/seek/read
-			switch {
-			case i == 0:
-				k = 0
-			case i == 1:
-				k = 20
-			case i == 2:
-				if _, err := fs.MarshalManifest("."); err != nil {
-					t.Fatal(err)
-				}
-				k = 0
-			default:
-				k = []int{20, 20, 20, 20, 40, 40, 40, 60, 60, 60, 72, 5, 78}[r.Intn(13)]
+		if focus && i == 2 {
+			if _, err := fs.MarshalManifest("."); err != nil {
+				t.Fatal(err)
 			}
 		}
-		switch {
-		case k < 18 || len(hs) == 0: // open
-			name := c08Path(r, known)
-			if focus {
-				name = "a"
-			}
-			acc := []int{2, 2, 2, 0, 1}[r.Intn(5)]
-			if focus {
-				acc = 2
-			}
-			if r.Chance(1, 40) {
-				acc = 3
-			}
-			cr, ex, tr, ap, sy := r.Chance(2, 3), r.Chance(1, 8), r.Chance(1, 8), r.Chance(1, 5), r.Chance(1, 150)
-			if focus {
-				cr, ex, tr, sy = true, false, false, false
-				ap = ap && i > 2 && r.Bool()
-			}
-			flag := []int{os.O_RDONLY, os.O_WRONLY, os.O_RDWR, os.O_WRONLY | os.O_RDWR}[acc]
-			if cr {
-				flag |= os.O_CREATE
-			}
-			if ex {
-				flag |= os.O_EXCL
-			}
-			if tr {
-				flag |= os.O_TRUNC
-			}
-			if ap {
-				flag |= os.O_APPEND
-			}
-			if sy {
-				flag |= os.O_SYNC
-			}
-			f, err := fs.OpenFile(name, flag, 0644)
-			op := fmt.Sprintf("OOpen %s (FL %d %s %s %s %s %s)", gStr(name), acc, gBool(cr), gBool(ex), gBool(tr), gBool(ap), gBool(sy))
-			if err != nil {
-				add(op, c08ErrObs(err), fmt.Sprintf("open %q flags=%#x", name, flag))
-				tag("open-" + cfsErr(err))
-			} else {
-				hs = append(hs, f)
-				if cr {
-					known = append(known, name)
-				}
-				add(op, fmt.Sprintf("VNat %d", len(hs)-1), fmt.Sprintf("open %q flags=%#x", name, flag))
-				tag("open-ok")
-			}
-		case k < 38: // write
-			h := r.Intn(len(hs))
-			n := r.Intn(3*mb + 3)
-			if r.Chance(1, 2) {
-				n = 1 + r.Intn(mb)
-			} else if r.Chance(1, 10) {
-				n = 0
-			}
-			if focus && i == 1 {
-				n = 2*mb + 1 + r.Intn(2*mb+1)
-			}
-			data := make([]byte, n)
-			for j := range data {
-				data[j] = byte(1 + r.Intn(250))
-			}
-			wn, err := hs[h].Write(data)
-			op := fmt.Sprintf("OWrite %d %s", h, c08Bytes(data))
-			if err != nil {
-				add(op, c08ErrObs(err), fmt.Sprintf("write h%d %d bytes", h, n))
-				tag("write-" + cfsErr(err))
-			} else {
-				add(op, fmt.Sprintf("VNat %d", wn), fmt.Sprintf("write h%d %d bytes", h, n))
-				tag("write-ok")
-				if n > mb {
-					tag("write-multiblock")
-				}
-			}
-		case k < 58: // read (loop until n bytes, EOF or error)
-			h := r.Intn(len(hs))
-			n := 1 + r.Intn(3*mb+2) // n >= 1: with n = 0 the caller's loop would not call Read at all
-			buf := make([]byte, n)
-			got := 0
-			eof := false
-			var rerr error
-			for got < n {
-				c, err := hs[h].Read(buf[got:])
-				got += c
-				if err == io.EOF {
-					eof = true
-					break
-				}
-				if err != nil {
-					rerr = err
-					break
-				}
-				if c == 0 {
-					rerr = fmt.Errorf("read returned 0 bytes without error")
-					break
-				}
-			}
-			op := fmt.Sprintf("ORead %d %d", h, n)
-			if rerr != nil {
-				add(op, c08ErrObs(rerr), fmt.Sprintf("read h%d %d", h, n))
-				tag("read-" + cfsErr(rerr))
-			} else {
-				add(op, fmt.Sprintf("VData %s %s", c08Bytes(buf[:got]), gBool(eof)), fmt.Sprintf("read h%d %d", h, n))
-				tag("read-ok")
-			}
-		case k < 70: // seek
-			h := r.Intn(len(hs))
-			wh := r.Intn(3)
-			off := r.Intn(4*mb + 2)
-			neg := r.Chance(1, 4)
-			if r.Chance(1, 2) {
-				// somewhere inside the current content
-				wh, neg, off = 0, false, r.Intn(int(hs[h].Size())+2)
-			}
-			o := int64(off)
-			if neg {
-				o = -o
-			}
-			pos, err := hs[h].Seek(o, wh)
-			op := fmt.Sprintf("OSeek %d %d %s %d", h, off, gBool(neg), wh)
-			if err != nil {
-				add(op, c08ErrObs(err), fmt.Sprintf("seek h%d %d whence %d", h, o, wh))
-				tag("seek-" + cfsErr(err))
-			} else {
-				add(op, fmt.Sprintf("VNat %d", pos), fmt.Sprintf("seek h%d %d whence %d", h, o, wh))
-			}
-		case k < 77: // truncate
-			h := r.Intn(len(hs))
-			n := r.Intn(4*mb + 2)
-			err := hs[h].Truncate(int64(n))
-			op := fmt.Sprintf("OTrunc %d %d", h, n)
-			if err != nil {
-				add(op, c08ErrObs(err), fmt.Sprintf("truncate h%d %d", h, n))
-			} else {
-				add(op, "VUnit", fmt.Sprintf("truncate h%d %d", h, n))
-				tag("truncate-ok")
-			}
-		case k < 80: // handle stat
-			h := r.Intn(len(hs))
-			fi, err := hs[h].Stat()
-			op := fmt.Sprintf("OHStat %d", h)
-			if err != nil {
-				add(op, c08ErrObs(err), op)
-			} else {
-				add(op, c08Info(fi), op)
-			}
-		case k < 84: // readdir
-			h := r.Intn(len(hs))
-			fis, err := hs[h].Readdir(0)
-			op := fmt.Sprintf("OReaddir %d", h)
-			if err != nil {
-				add(op, c08ErrObs(err), op)
-			} else {
-				sort.Slice(fis, func(i, j int) bool { return fis[i].Name() < fis[j].Name() })
-				var es []string
-				for _, fi := range fis {
-					es = append(es, fmt.Sprintf("(%s, (%s, %d))", gStr(fi.Name()), gBool(fi.IsDir()), fi.Size()))
-				}
-				add(op, "VList "+gList(es), op)
-				tag("readdir-ok")
-			}
-		case k < 88: // mkdir
-			name := c08Path(r, nil)
-			err := fs.Mkdir(name, 0755)
-			op := "OMkdir " + gStr(name)
-			if err != nil {
-				add(op, c08ErrObs(err), fmt.Sprintf("mkdir %q", name))
-				tag("mkdir-" + cfsErr(err))
-			} else {
-				known = append(known, name)
-				add(op, "VUnit", fmt.Sprintf("mkdir %q", name))
-				tag("mkdir-ok")
-			}
-		case k < 93: // rename
-			a, b := c08Path(r, known), c08Path(r, known)
-			err := fs.Rename(a, b)
-			op := "ORename " + gStr(a) + " " + gStr(b)
-			if err != nil {
-				add(op, c08ErrObs(err), fmt.Sprintf("rename %q %q", a, b))
-				tag("rename-" + cfsErr(err))
-			} else {
-				known = append(known, b)
-				add(op, "VUnit", fmt.Sprintf("rename %q %q", a, b))
-				tag("rename-ok")
-			}
-		case k < 96: // remove
-			name := c08Path(r, known)
-			err := fs.Remove(name)
-			op := "ORemove " + gStr(name)
-			if err != nil {
-				add(op, c08ErrObs(err), fmt.Sprintf("remove %q", name))
-				tag("remove-" + cfsErr(err))
-			} else {
-				add(op, "VUnit", fmt.Sprintf("remove %q", name))
-				tag("remove-ok")
-			}
-		default: // stat
-			name := c08Path(r, known)
-			fi, err := fs.Stat(name)
-			op := "OStat " + gStr(name)
-			if err != nil {
-				add(op, c08ErrObs(err), fmt.Sprintf("stat %q", name))
-			} else {
-				add(op, c08Info(fi), fmt.Sprintf("stat %q", name))
-			}
-		}
+		se.randomOp(r, focus, i, false, add)
 	}
-	for k := range tagset {
-		tags = append(tags, k)
-	}
-	sort.Strings(tags)
-	return
+	return ops, obs, desc, se.tags()
 }
-
 func TestVerifC08(t *testing.T) {
 	seed := vSeed()
 	n := vEnvInt("VERIF_N", 100)
